@@ -29,6 +29,9 @@ mod ops;
 mod replay;
 mod refchess;
 mod posgen;
+mod c01;
+mod c02;
+mod c10;
 mod c11;
 mod c12;
 mod c14;
@@ -55,6 +58,11 @@ fn main() {
     let mut rng = common::Rng::new(seed);
     match prop {
         "c15" => c15::run(&mut rng, n, &mut out),
+        "c01" => c01::run(&mut rng, n, &mut out, "c01"),
+        "c17" => c01::run(&mut rng, n, &mut out, "c17"),
+        "c02" => c02::run(&mut rng, n, &mut out),
+        "c10" => c10::run(&mut rng, n, &mut out, false),
+        "c10x" => c10::run(&mut rng, n, &mut out, true),
         "c11" => c11::run(&mut rng, n, &mut out),
         "c12" => c12::run(&mut rng, n, &mut out),
         "c14" => c14::run(&mut rng, n, &mut out),
